@@ -40,6 +40,7 @@ type evalResult struct {
 	Out    string `json:"out"`
 	Panic  string `json:"panic,omitempty"`
 	Site   string `json:"site,omitempty"`
+	Stack  string `json:"stack,omitempty"`
 }
 
 // panicSite returns the innermost function of the pangaea module on the stack
@@ -64,7 +65,7 @@ func evalIn(src string, env *object.Env, out *bytes.Buffer) (res evalResult) {
 	defer func() {
 		if r := recover(); r != nil {
 			st := string(debug.Stack())
-			res = evalResult{Kind: "panic", Panic: fmt.Sprint(r), Site: panicSite(st), Out: out.String()}
+			res = evalResult{Kind: "panic", Panic: fmt.Sprint(r), Site: panicSite(st), Stack: truncate(st, 4000), Out: out.String()}
 		}
 	}()
 	node, err := parser.Parse(parser.NewReader(strings.NewReader(src), ""))
